@@ -2226,9 +2226,13 @@ fn judge_wire_view(
             let wire = view.get(&k);
             let e = match (&wp.exp, wire) {
                 (Expected::Suppress(clause), Some(w)) => {
-                    let sig = format!("C09/wire-grouping/{}/suppressed-route-sent", sink);
-                    let wj = wire_witness(sink, b, routes, k, Some(w), shadow.get(&k), log);
-                    ctx.rep.violation(&sig, &format!("a route the {} rule forbids is in the UPDATE messages", clause), wj);
+                    // handed to the sink although forbidden: the filter's defect (same
+                    // signature as the matrix part); not handed: reported as stale-entry above
+                    if shadow.contains_key(&k) {
+                        let sig = format!("C09/{}/{}/sent", clause, wp.cell.pair());
+                        let wj = wire_witness(sink, b, routes, k, Some(w), shadow.get(&k), log);
+                        ctx.rep.violation(&sig, &format!("a route the {} rule forbids is in the UPDATE messages ({} sink)", clause, sink), wj);
+                    }
                     continue;
                 }
                 (Expected::Suppress(_), None) | (Expected::Either(..), _) => continue,
@@ -2476,7 +2480,7 @@ fn run_wire(ctx: &mut Ctx, rng: &mut Rng, batches: u64) {
 #[test]
 fn run() {
     let params = Params::from_args_env();
-    let rule = "case = (cell = source kind x receiver role x cluster config x confederation x echo, attribute vector, export policy action, branch) run through the real process_nlri_change and judged by expected_export (plus LLGR stale-transition histories through TableManager, is_as_loop paths, rx_update loop cases with RIB read-back); non-trivial = a suppress rule applied, or the route was sent and its rewrite judged, or an inbound case that loops; distinct by hash of (cell, vector) / of the case parameters";
+    let rule = "case = (cell = source kind x receiver role x cluster config x confederation x echo, attribute vector, export policy action, branch) run through the real process_nlri_change and judged by expected_export (plus LLGR stale-transition histories through TableManager, is_as_loop paths, rx_update loop cases with RIB read-back, and batches of prefixes through the real GroupedSink / PendingTx flattened per (prefix, path id)); non-trivial = a suppress rule applied, or the route was sent and its rewrite judged, or an inbound case that loops, or a wire entry judged; distinct by hash of (cell, vector) / of the case parameters";
     let mut rep = Report::new("C09", &params);
     rep.extra("rule", Json::s(rule));
     rep.max_samples = 6;
